@@ -237,24 +237,24 @@ func c09(c *an.Ctx) {
 		r := c.Rule("C09.R6", "K-WHOWRITES", "ColumnMeta.preAgg is written only by the column builder, the compaction merges and the metadata decoder")
 		if preAgg != nil {
 			c.WhoWrites(r, preAgg, "ColumnMeta.preAgg", an.Allowed{
-				I + ":(*ColumnBuilder).encIntegerColumn":       "flush/compaction encoder",
-				I + ":(*ColumnBuilder).encFloatColumn":         "flush/compaction encoder",
-				I + ":(*ColumnBuilder).encStringColumn":        "flush/compaction encoder",
-				I + ":(*ColumnBuilder).encBooleanColumn":       "flush/compaction encoder",
-				I + ":(*ColumnBuilder).BuildPreAgg":            "flush/compaction encoder",
-				I + ":(*ColumnBuilder).encodeTimeColumn":       "time column statistics",
-				I + ":(*StreamIterators).mergeTimePreAgg":      "streaming compaction merge",
-				I + ":(*StreamIterators).mergeIntegerPreAgg":   "streaming compaction merge",
-				I + ":(*StreamIterators).mergeFloatPreAgg":     "streaming compaction merge",
-				I + ":(*StreamIterators).mergeStringPreAgg":    "streaming compaction merge",
-				I + ":(*StreamIterators).mergeBooleanPreAgg":   "streaming compaction merge",
-				I + ":(*ColumnMeta).unmarshalPreagg":           "decoder",
-				I + ":(*ColumnMeta).reset":                     "reset",
-				I + ":UnmarshalColumnMetaWithoutName":          "decoder (self-compressed chunk meta)",
-				I + ":(*ChunkDataBuilder).EncodeTime":          "column-store time column statistics",
-				I + ":NewChunkMeta":                            "constructor with an explicit count (hot/cold tooling)",
-				I + ":(*ChunkMeta).resize":                     "truncation to length 0 when the meta is reused",
-				I + ":(*ChunkMeta).reset":                      "reset",
+				I + ":(*ColumnBuilder).encIntegerColumn":     "flush/compaction encoder",
+				I + ":(*ColumnBuilder).encFloatColumn":       "flush/compaction encoder",
+				I + ":(*ColumnBuilder).encStringColumn":      "flush/compaction encoder",
+				I + ":(*ColumnBuilder).encBooleanColumn":     "flush/compaction encoder",
+				I + ":(*ColumnBuilder).BuildPreAgg":          "flush/compaction encoder",
+				I + ":(*ColumnBuilder).encodeTimeColumn":     "time column statistics",
+				I + ":(*StreamIterators).mergeTimePreAgg":    "streaming compaction merge",
+				I + ":(*StreamIterators).mergeIntegerPreAgg": "streaming compaction merge",
+				I + ":(*StreamIterators).mergeFloatPreAgg":   "streaming compaction merge",
+				I + ":(*StreamIterators).mergeStringPreAgg":  "streaming compaction merge",
+				I + ":(*StreamIterators).mergeBooleanPreAgg": "streaming compaction merge",
+				I + ":(*ColumnMeta).unmarshalPreagg":         "decoder",
+				I + ":(*ColumnMeta).reset":                   "reset",
+				I + ":UnmarshalColumnMetaWithoutName":        "decoder (self-compressed chunk meta)",
+				I + ":(*ChunkDataBuilder).EncodeTime":        "column-store time column statistics",
+				I + ":NewChunkMeta":                          "constructor with an explicit count (hot/cold tooling)",
+				I + ":(*ChunkMeta).resize":                   "truncation to length 0 when the meta is reused",
+				I + ":(*ChunkMeta).reset":                    "reset",
 			}, nil)
 		} else {
 			r.Unresolved(I + ":ColumnMeta.preAgg")
